@@ -117,7 +117,7 @@ def run(ctx):
     fe = mdl.func('path.path_encloses_pt')
     bad = []
     structure = []
-    for k in range(0, 5):
+    for k in range(0, 10 if ctx.tier == 'thorough' else 5):
         def th3(it, k=k):
             path = Opaque('closedpath')
             path.attrs['isclosed'] = ExtRef('__isclosed__')
